@@ -2,7 +2,7 @@
    the exact cone moments; with |det| the rule is exact only on star-shaped solids. *)
 From Coq Require Import Reals QArith Qreals List Lia Lra.
 Require Import Cox.Num.Ops Cox.Num.Transfer Cox.Geo.Vec Cox.Geo.Sums Cox.Model.Mesh Cox.Model.Entry
-  Cox.Thm.MeshThm Cox.Thm.PolyhedronThm Cox.Thm.ClosedThm Cox.Thm.MeshTransfer Cox.Thm.TetraMoments.
+  Cox.Thm.MeshThm Cox.Thm.PolyhedronThm Cox.Thm.ClosedThm Cox.Thm.MeshTransfer Cox.Thm.TetraMoments Cox.Model.Polygon Cox.Thm.FaceVolume.
 Import ListNotations.
 Local Open Scope R_scope.
 
@@ -62,3 +62,15 @@ Theorem C02_tetrahedron_moments_are_integrals :
     /\ tet_int (fun X => vcomp i X * vcomp j X) t = m2 Rops i j t.
 Proof. intros t i j. repeat split; [apply m0_is_integral | apply m1_is_integral | apply m2_is_integral]. Qed.
 Print Assumptions C02_tetrahedron_moments_are_integrals.
+
+(* Polyhedron.volume = sum over faces of (-d_f) A_f / 3.  For every planar face (any number of vertices) listed
+   counter-clockwise about its normal, the code's per-face term equals three times the signed volume of the cone over the
+   face, i.e. three times the sum of m0 over the face's fan triangles; and that cone volume is v0 . (vector area) / 6. *)
+Theorem C02_face_volume_term :
+  forall a b l lam,
+    let V := a :: b :: l in let N := pnormal Rops V in let p := argmax3 Rops N in
+    A2 Rops V = vscale Rops lam N -> vcomp p N <> 0 -> 0 <= sproj Rops p V / vcomp p N ->
+    face_vol_term Rops V = 3 * cone0 Rops (fan_tris a b l)
+    /\ 6 * cone0 Rops (fan_tris a b l) = vdot Rops a (A2 Rops V).
+Proof. intros a b l lam V N p H1 H2 H3. split; [exact (face_volume_term_exact a b l lam H1 H2 H3) | apply face_cone_volume]. Qed.
+Print Assumptions C02_face_volume_term.
